@@ -173,6 +173,7 @@ func prop(t *rapid.T) {
 		}
 	}
 	np := rapid.IntRange(1, 8).Draw(t, "nprobes")
+	var lookups []model.Lookup
 	for i := 0; i < np; i++ {
 		if rapid.IntRange(0, 5).Draw(t, "introspect") == 0 {
 			introspect(r, rapid.IntRange(0, 4).Draw(t, "introspectWhat"))
@@ -216,6 +217,14 @@ func prop(t *rapid.T) {
 		if msg := checkProbe(r, tb, method, path); msg != "" {
 			t.Fatalf("%s", msg)
 		}
+		lookups = append(lookups, model.Lookup{Method: method, Path: path, Route: res.Route})
+	}
+	// the same lookups from several goroutines at once give the same answers (one case in twelve)
+	if rapid.IntRange(0, 11).Draw(t, "concurrentLookups") == 0 {
+		if msg := model.ConcurrentLookups(r, lookups, 4, ev.Pick(300, 2000)); msg != "" {
+			t.Fatalf("%s\n table: %s", msg, tb)
+		}
+		ev.Class("lookups-repeated-concurrently")
 	}
 }
 
